@@ -136,6 +136,66 @@ def _case(args):
     return n, out
 
 
+def _history(args):
+    """the decision belongs to the document, not to the template object: a second document given to the same object
+    (write(), or the file rewritten under auto_reload) is decided like a first one"""
+    recs, seed = args
+    sys.path.insert(0, REPO_SRC)
+    from chameleon import PageTemplate, PageTemplateFile
+    rnd = random.Random(seed)
+    out = []
+    n = 0
+    d = tempfile.mkdtemp(prefix="c17h_")
+    try:
+        docs = []
+        for rec in recs:
+            doc = build_doc(rec, rnd, rnd.randrange(5))
+            try:
+                raw = doc.encode(rec["enc"])
+            except UnicodeEncodeError:
+                return 0, []
+            docs.append((rec, doc, (BOMS[rec["bom"]] if rec["bom"] != "none" else b"") + raw))
+        kw = dict(c=True, t="é")
+        fresh = []
+        for rec, doc, data in docs:
+            t = PageTemplate(data, default_encoding=rec["dflt"])
+            fresh.append((t(**kw), t.content_type, codecs.lookup(t.content_encoding).name))
+        dflt = docs[0][0]["dflt"]
+        if any(r["dflt"] != dflt for r, _, _ in docs):
+            return 0, []
+        path = os.path.join(d, "t.pt")
+        for mode in ("write", "file"):
+            try:
+                if mode == "write":
+                    t = PageTemplate(docs[0][2], default_encoding=dflt)
+                else:
+                    open(path, "wb").write(docs[0][2])
+                    os.utime(path, (1000, 1000))
+                    t = PageTemplateFile(path, auto_reload=True, default_encoding=dflt)
+                for k, (rec, doc, data) in enumerate(docs):
+                    if k:
+                        if mode == "write":
+                            t.write(data)
+                        else:
+                            open(path, "wb").write(data)
+                            os.utime(path, (1000 + 10 * k, 1000 + 10 * k))
+                    got = (t(**kw), t.content_type, codecs.lookup(t.content_encoding).name)
+                    n += 1
+                    if got != fresh[k]:
+                        out.append(("one template object (%s), document %d of the sequence %s: output / content_type / content_encoding "
+                                    "%r; a new template of this document gives %r" % (
+                                        "write()" if mode == "write" else "file rewritten, auto_reload", k + 1,
+                                        [(r["bom"], r["decl"], r["meta"]) for r, _, _ in docs], got, fresh[k]),
+                                    dict(source=doc)))
+                        break
+            except Exception as e:
+                out.append(("one template object (%s), sequence %s: raised %s: %s" % (
+                    mode, [(r["bom"], r["decl"], r["meta"]) for r, _, _ in docs], type(e).__name__, str(e).splitlines()[:1]), {}))
+    finally:
+        shutil.rmtree(d, ignore_errors=True)
+    return n, out
+
+
 def run(ctx):
     wd = workdir("sniff")
     try:
@@ -167,6 +227,23 @@ def run(ctx):
         for text, payload in out[:2]:
             if len(ctx.violations) < 10:
                 ctx.violation(text, dict(kind="sniff", **payload))
+    # sequences of 2-3 documents on one template object
+    rnd = random.Random(ctx.seed + 17)
+    by_dflt = {}
+    for x in r.records:
+        by_dflt.setdefault(x["dflt"], []).append(x)
+    seqs = []
+    for _ in range(120 if ctx.tier == "quick" else 1500):
+        pool_ = by_dflt[rnd.choice(sorted(by_dflt))]
+        seqs.append([rnd.choice(pool_) for _ in range(rnd.choice((2, 2, 3)))])
+    with multiprocessing.get_context("fork").Pool(16) as pool:
+        hres = pool.map(_history, [(sq, ctx.seed + i) for i, sq in enumerate(seqs)])
+    for n, out in hres:
+        ctx.replays += n
+        for text, payload in out[:1]:
+            if len(ctx.violations) < 10:
+                ctx.violation(text, dict(kind="sniff-history", **payload))
+    ctx.notes["document_sequences"] = len(seqs)
     ctx.nontrivial += len(recs)
     ctx.sample(recs[len(recs) // 3])
     ctx.exhaustive = ctx.tier != "quick"
